@@ -120,3 +120,19 @@ Fixpoint alist_get {A} (k : tpath) (l : list (tpath * A)) : option A :=
   | [] => None
   | (k', v) :: l' => if path_eqb k k' then Some v else alist_get k l'
   end.
+
+(* ---- one level of subcommands: parse_args(parent items ++ [NAME] ++ subcommand items) ---------- *)
+Record scall := {
+  s_parent : call;                        (* the parent parser's own declarations and sources; entry = EArgs items before the token *)
+  s_name : name;                          (* the subcommand given on the command line *)
+  s_sub : parser;                         (* its declarations, keys relative to the subcommand *)
+  s_subenv : list (tpath * val);          (* environment variables PREFIX_NAME__KEY *)
+  s_subargv : list arg }.                 (* items after the token *)
+
+Definition prefix_decl (nm : name) (d : decl) : decl :=
+  {| d_key := nm :: d_key d; d_kind := d_kind d; d_default := d_default d |}.
+
+(* what _find_action(parent, key) can find: the parent's actions and, below NAME, the subcommand's *)
+Definition all_decls (sc : scall) : parser :=
+  c_parser (s_parent sc) ++ map (prefix_decl (s_name sc)) (s_sub sc).
+
